@@ -62,6 +62,11 @@ func shuffleMeta(rng *rand.Rand, spec *RPCSpec) {
 			rest = append(rest, op)
 		}
 	}
+	for i := range meta {
+		if rng.Intn(3) == 0 {
+			meta[i].Name = "ctx"
+		}
+	}
 	for _, m := range meta {
 		pos := rng.Intn(len(rest)) // before the final ret
 		rest = append(rest[:pos], append([]Op{m}, rest[pos:]...)...)
@@ -83,9 +88,16 @@ func shuffleMeta(rng *rand.Rand, spec *RPCSpec) {
 			spec.Client = append(spec.Client[:pos], append([]Op{{K: k}}, spec.Client[pos:]...)...)
 		}
 	}
-	// always end with trailer + header reads
+	// always end with trailer + header reads, a repeated terminal read, and (sometimes) a second half-close
 	if spec.Method != "Unary" {
 		spec.Client = append(spec.Client, Op{K: "trailer"}, Op{K: "header"}, Op{K: "recv"}, Op{K: "trailer"})
+		if rng.Intn(3) == 0 {
+			spec.Client = append(spec.Client, Op{K: "close"}, Op{K: "recv"}, Op{K: "header"}, Op{K: "trailer"})
+		}
+		if rng.Intn(3) == 0 && len(spec.ClientHdr) == 0 {
+			// a third goroutine blocked in Header() from the very start
+			spec.ClientHdr = []Op{{K: "header"}}
+		}
 	}
 }
 
